@@ -31,13 +31,14 @@ class Dev:
 
 
 class Outcome:
-    __slots__ = ('devs', 'labels', 'nontrivial', 'refused')
+    __slots__ = ('devs', 'labels', 'nontrivial', 'refused', 'counters')
 
-    def __init__(self, devs=(), labels=(), nontrivial=False, refused=False):
+    def __init__(self, devs=(), labels=(), nontrivial=False, refused=False, counters=None):
         self.devs = list(devs)
         self.labels = tuple(labels)
         self.nontrivial = bool(nontrivial)
         self.refused = bool(refused)
+        self.counters = counters or {}  # additional measured numbers, summed into coverage
 
 
 class Enum:
@@ -112,6 +113,8 @@ class Stats:
             self.labels[lb] += 1
         if out.refused:
             self.refused += 1
+        for k, v in out.counters.items():
+            self.extra[k] = self.extra.get(k, 0) + v
         if out.nontrivial:
             h = case_hash(case)
             if h not in self.nontrivial:
